@@ -108,9 +108,11 @@ def _hybrid_bitpacked(vals, width):
     return _uleb((groups << 1) | 1) + bits.to_bytes(groups * width, "little")
 
 
-def build_dict(path, dictionary, indices, width, nulls=None, optional=False, pages=1, stats_null_count="absent"):
-    """flat INT64 column, data page v1, RLE_DICTIONARY: a PLAIN dictionary page followed by `pages` data pages whose
-    indices are one bit-packed run of the given width; nulls (list of bool per row) only when optional"""
+def build_dict(path, dictionary, indices, width, nulls=None, optional=False, pages=1, stats_null_count="absent",
+               version=1, page_rows=None):
+    """flat INT64 column, data page v1 (or v2), RLE_DICTIONARY: a PLAIN dictionary page followed by `pages` data pages
+    (or one page per entry of page_rows) whose indices are one bit-packed run of the given width; nulls (list of bool
+    per row) only when optional"""
     from fastparquet import parquet_thrift as pt
     n = len(nulls) if nulls is not None else len(indices)
     nulls = list(nulls) if nulls is not None else [False] * n
@@ -124,18 +126,32 @@ def build_dict(path, dictionary, indices, width, nulls=None, optional=False, pag
     data_start = len(data)
     per = (n + pages - 1) // pages if pages else n
     it = iter(indices)
-    for a in range(0, n, max(per, 1)):
-        rows = nulls[a:a + per]
+    if page_rows:
+        bounds, a = [], 0
+        for r in page_rows:
+            bounds.append((a, a + r))
+            a += r
+    else:
+        bounds = [(a, a + per) for a in range(0, n, max(per, 1))]
+    for a, b in bounds:
+        rows = nulls[a:b]
         idx = [next(it) for isnull in rows if not isnull]
-        body = b""
+        body, lv = b"", b""
         if optional:
             lv = _hybrid_bitpacked([0 if x else 1 for x in rows], 1)
-            body += struct.pack("<I", len(lv)) + lv
+            body += (struct.pack("<I", len(lv)) if version == 1 else b"") + lv
         body += bytes([width]) + (_hybrid_bitpacked(idx, width) if width else b"")
-        ph = pt.PageHeader(type=0, uncompressed_page_size=len(body), compressed_page_size=len(body),
-                           data_page_header=pt.DataPageHeader(num_values=len(rows), encoding=8,
-                                                              definition_level_encoding=3,
-                                                              repetition_level_encoding=3, i32=1), i32=1)
+        if version == 2:
+            h2 = pt.DataPageHeaderV2(num_values=len(rows), num_nulls=sum(1 for x in rows if x), num_rows=len(rows),
+                                     encoding=8, definition_levels_byte_length=len(lv),
+                                     repetition_levels_byte_length=0, is_compressed=False, i32=1)
+            ph = pt.PageHeader(type=3, uncompressed_page_size=len(body), compressed_page_size=len(body),
+                               data_page_header_v2=h2, i32=1)
+        else:
+            ph = pt.PageHeader(type=0, uncompressed_page_size=len(body), compressed_page_size=len(body),
+                               data_page_header=pt.DataPageHeader(num_values=len(rows), encoding=8,
+                                                                  definition_level_encoding=3,
+                                                                  repetition_level_encoding=3, i32=1), i32=1)
         data += bytes(ph.to_bytes()) + body
     size = len(data) - start
     extra = {}
